@@ -69,5 +69,17 @@ func TestVerifDefaultClassifier(t *testing.T) {
 			return nil
 		})
 	}
+	// a caller extends its DefaultClassifier: a later DefaultClassifier() is still the assets corpus only
+	if why == "" {
+		private := []byte("this private corporate end user agreement grants nobody anything whatsoever and forbids frobnication of the gadget forever\n")
+		dc.AddContent("License", "Private-Corp-EULA", "license.txt", private)
+		dc2, err := DefaultClassifier()
+		if err != nil {
+			why = "second DefaultClassifier: " + err.Error()
+		} else if a, c := proj(dc2.Match(private)), proj(lc.Match(private)); a != c {
+			why = fmt.Sprintf("after AddContent on the first instance, a second DefaultClassifier() differs from LoadLicenses: %s vs %s", a, c)
+			diffs++
+		}
+	}
 	emit(map[string]interface{}{"kind": "default", "inputs": n, "diffs": diffs, "why": why})
 }
